@@ -12,6 +12,10 @@ fn main() {
         "C05" => main_for::<props::client::C05>(rest),
         "C06" => main_for::<props::client::C06>(rest),
         "C14" => main_for::<props::client::C14>(rest),
+        "C07" => main_for::<props::daemon::C07>(rest),
+        "C08" => main_for::<props::daemon::C08>(rest),
+        "C09" => main_for::<props::daemon::C09>(rest),
+        "C10" => main_for::<props::daemon::C10>(rest),
         other => {
             eprintln!("unknown property {}", other);
             2
